@@ -109,6 +109,15 @@ Section Reader.
     | ReadError => mkR [] true false (rdelivered s)    (* any other read exception / timeout: disconnect *)
     end.
 
+  (* The handler-outcome hypothesis of the liveness theorem, stated precisely: [h dl m] is the
+     outcome of `await self.network.on_message_received(m, self)` inside the reader task after the
+     messages [dl] were delivered on this connection.  HCancels = the await raises
+     asyncio.CancelledError (or any other BaseException that is not an Exception) although the reader
+     task itself was not cancelled from outside, e.g. a handler awaiting a task or future that is
+     (or gets) cancelled.  HRaises = it raises an Exception (logged by _perform_message_callback /
+     EventBus.emit).  HOk = it returns.  The hypothesis says: HCancels never happens. *)
+  Definition handlers_never_cancel : Prop := forall dl m, h dl m <> HCancels.
+
   Definition rinit : rstate M := mkR [] false true [].
   Definition rrun (evs : list ev) : rstate M := fold_left rstep evs rinit.
 End Reader.
